@@ -292,7 +292,9 @@ async def _scenario(rng, d):
             client_obs.dispose()
     else:
         # core client: a recording subscriber granting credit `limit` at a time (what the adapter is specified to do)
-        sub = RecSubscriber(world, iid, DIR_RESPONSE, 'core-sub', policy=('refill', limit, 0), initial_granted=limit,
+        sub = RecSubscriber(world, iid, DIR_RESPONSE, 'core-sub',
+                            policy=('burst', tuple(d['core_burst']), 0) if d.get('core_burst') else ('refill', limit, 0),
+                            initial_granted=limit,
                             cancel_after=d['dispose_after'])
         res['core_sub'] = sub
         if model == 'stream':
@@ -363,6 +365,10 @@ def gen_scenario(rng, single=False):
          'dispose_after': rng.choice([None, None, None, 0, 1, rng.randrange(0, n + 1)]),
          'up': None, 'up_error': None, 'up_kind': 'cold', 'up_limit': MAXN,
          'link': rng.choice(ANY_LINK), 'knobs': rng.random() < 0.5}
+    if not d['client_adapter'] and model in ('stream', 'channel') and rng.random() < 0.4:
+        # a core-API requester that grants credit in several back-to-back request() calls: the grants pile up at the
+        # adapter behind the handler's observable and must all count
+        d['core_burst'] = [rng.choice([1, 2, 3]) for _ in range(rng.choice([2, 3, 4]))]
     if d['pacing'] == 0.0:
         d['pacing'] = 0.0   # placeholder, hot sources get a non-zero pacing below
     if model == 'channel' and rng.random() < 0.8:
@@ -550,6 +556,8 @@ def judge(d, res):
                 # only grants for the response direction are made by the requester
                 granted = min(MAXN, granted + f['n'])
                 st['credit_windows_checked'] += 1
+                if d.get('core_burst'):
+                    continue        # the harness's own core subscriber grants 1..3 at a time here
                 if f['n'] != limit:
                     bad('request-n-differs-from-limit', wire=f['n'], limit=limit)
                 if limit < MAXN and granted - received > limit:
